@@ -28,9 +28,9 @@ theorem retry_spec (script : List Bool) :
 
 /-! ### a three-step history on which the code as it was leaves a stale output -/
 
-def wA : File := ⟨"a", "78", some "x"⟩
-def wB : File := ⟨"b", "79", some "y"⟩
-def wC : File := ⟨"c", "24", some "$(UNSET_VAR)"⟩
+def wA : File := { name := "a", raw := "78", plain := some "x" }
+def wB : File := { name := "b", raw := "79", plain := some "y" }
+def wC : File := { name := "c", raw := "24", plain := some "$(UNSET_VAR)" }
 def wConf : Conf := ⟨false, false, false, false⟩
 def wSnap (fs : List File) : Snap := { cfg := none, dirs := [fs], watched := none, env := [], script := [true] }
 
@@ -174,6 +174,65 @@ theorem apply_err_keeps (c : Conf) (track : Bool) (st : St) (s : Snap) (e : Err)
     simp only [hcs] at herr ⊢
     exact (finish_err c st s _ e herr).2
 
+/-- **what is remembered**: an `apply` either leaves the three remembered hashes (config file, every
+    config directory, watched directories) exactly as they were, or — and only when the reload
+    endpoint answered success during this very apply — replaces all of them by the hashes of what
+    is on disk now.  No exit of `apply` (error in a later directory, in the watched directories,
+    failed reload) remembers part of the content. -/
+theorem apply_last_cases (c : Conf) (track : Bool) (st : St) (s : Snap) :
+    lastOf (apply c track st s).1 = lastOf st ∨
+    (lastOf (apply c track st s).1 = contentOf c s ∧ s.script.any id = true ∧
+      ∃ n, (apply c track st s).2 = .ok n ∧ 0 < n) := by
+  unfold apply
+  cases hcs : cfgStep c st s with
+  | error e => exact Or.inl rfl
+  | ok o0 =>
+    simp only
+    obtain ⟨_, _, wh, _, we⟩ := watchStep_fields s (dirsStep c track st s o0)
+    generalize hp : watchStep s (dirsStep c track st s o0) = p at wh we ⊢
+    unfold finish
+    cases hpe : p.err with
+    | some e => exact Or.inl rfl
+    | none =>
+      simp only
+      split
+      · exact Or.inl rfl
+      · split
+        · exact Or.inl rfl
+        · cases hr : (retry s.script).2 with
+          | false => simp only [Bool.false_eq_true, if_false]; exact Or.inl rfl
+          | true =>
+            simp only [if_true]
+            right
+            have hh : p.hashes = s.dirs.map hashFiles := by
+              rw [wh]
+              unfold dirsStep
+              have := passDirs_hashes c track s.env st.lastDirs s.dirs 0 _ o0 [] _ (by
+                have := we hpe; unfold dirsStep at this; exact this)
+              simpa using this
+            refine ⟨by simp [lastOf, contentOf, hh], by rw [← retry_ok_iff]; exact hr, _, rfl, ?_⟩
+            have : s.script ≠ [] := by
+              intro h0; rw [h0] at hr; simp [retry] at hr
+            exact retry_pos s.script this
+
+/-- **invariant**: along every history, what the reloader remembers is the content (per config file,
+    per config directory, watched directories) at the last apply whose reload succeeded — or
+    nothing, before the first one -/
+theorem C47_remembers_last_success (c : Conf) (track : Bool) : ∀ (hist : List Snap) (st : St),
+    lastOf (runHistory c track st hist) = lastOf st ∨
+    ∃ s ∈ hist, lastOf (runHistory c track st hist) = contentOf c s ∧ s.script.any id = true := by
+  intro hist
+  induction hist with
+  | nil => intro st; exact Or.inl rfl
+  | cons s rest ih =>
+    intro st
+    simp only [runHistory]
+    rcases ih (apply c track st s).1 with h | ⟨s', hs', h1, h2⟩
+    · rcases apply_last_cases c track st s with h0 | ⟨h0, h3, _⟩
+      · exact Or.inl (by rw [h, h0])
+      · exact Or.inr ⟨s, by simp, by rw [h, h0], h3⟩
+    · exact Or.inr ⟨s', by simp [hs'], h1, h2⟩
+
 /-- the results of a history -/
 def results (c : Conf) (track : Bool) : St → List Snap → List Res
   | _, [] => []
@@ -223,7 +282,7 @@ theorem keysOf_apply (c : Conf) (track : Bool) (st : St) (s : Snap) (h : KeysOf 
   | error e => exact h
   | ok o0 =>
     simp only
-    rw [(finish_out c st s _).2]
+    rw [(finish_out c st s _).2, (watchStep_fields s _).2.1]
     exact (passDirs_out c track s.env st.lastDirs s.dirs 0 _ o0 [] _ (keysOf_start st s h)).2.1
 
 /-- **outputs**: after an `apply` that returns without error, the config output file and the
@@ -240,8 +299,8 @@ theorem C47_outputs (c : Conf) (track : Bool) (st : St) (s : Snap) (n : Nat)
   | error e => simp [hcs] at hok
   | ok o0 =>
     simp only [hcs] at hok ⊢
-    rw [(finish_out c st s _).1]
-    have hpe := finish_ok_err c st s _ n hok
+    rw [(finish_out c st s _).1, (watchStep_fields s _).1]
+    have hpe := (watchStep_fields s _).2.2.2.2 (finish_ok_err c st s _ n hok)
     obtain ⟨pf, _, pw⟩ := passDirs_out c track s.env st.lastDirs s.dirs 0 _ o0 []
       (st.lastDirs.isEmpty && !s.dirs.isEmpty) (keysOf_start st s hinv)
     constructor
@@ -324,7 +383,9 @@ theorem apply_tracked (c : Conf) (st : St) (s : Snap) (h : TrackInv st s.dirs.le
       (st.lastDirs.isEmpty && !s.dirs.isEmpty) (keysOf_start st s hk) hlf htr
     have pk := (passDirs_out c true s.env st.lastDirs s.dirs 0 _ o0 [] (st.lastDirs.isEmpty && !s.dirs.isEmpty)
       (keysOf_start st s hk)).2.1
-    obtain ⟨fo, ff⟩ := finish_out c st s (dirsStep c true st s o0)
+    obtain ⟨fo, ff⟩ := finish_out c st s (watchStep s (dirsStep c true st s o0))
+    rw [(watchStep_fields s _).1] at fo
+    rw [(watchStep_fields s _).2.1] at ff
     have hd : dirsStep c true st s o0 = passDirs c true s.env st.lastDirs 0 s.dirs
         (if st.lastDirFiles.isEmpty = true then s.dirs.map (fun _ => none) else st.lastDirFiles) o0 []
         (st.lastDirs.isEmpty && !s.dirs.isEmpty) := rfl
@@ -342,7 +403,7 @@ theorem apply_tracked (c : Conf) (st : St) (s : Snap) (h : TrackInv st s.dirs.le
       · exact p1
     · intro n hn i name hne
       rw [fo] at hne
-      have hpe := finish_ok_err c st s _ n hn
+      have hpe := (watchStep_fields s _).2.2.2.2 (finish_ok_err c st s _ n hn)
       obtain ⟨l, hl, hmem⟩ := p1 i name (Nat.zero_le _) hne
       simp only [Nat.sub_zero] at hl
       have hi : i < s.dirs.length := by
@@ -538,6 +599,15 @@ theorem C47_retry_loop_fact : Thanos.Facts.retryLoop =
     is written (selects `Driver/Misc.lean: rlTrack`), and the condition under which `apply` does
     not reload (the one `apply` of the model tests). -/
 theorem C47_track_fact : Thanos.Facts.reloaderTracksWrittenOutputs = "yes" := by decide
+/-- Regenerated obligation: the three remembered hashes are written in exactly one place each —
+    inside the retry closure of `apply`, after `r.triggerReload` returned without error — and
+    nowhere else (not while the directories are walked, not in `New`): the model's `finish` commits
+    them only on a successful reload, which is what `apply_last_cases` is about. -/
+theorem C47_hash_assign_fact : Thanos.Facts.reloaderHashAssignments =
+    ["closure after r.triggerReload: r.lastCfgHash = cfgHash",
+     "closure after r.triggerReload: r.lastCfgDirsHash = cfgDirsHash",
+     "closure after r.triggerReload: r.lastWatchedDirsHash = watchedDirsHash"] := by decide
+
 theorem C47_noreload_fact : Thanos.Facts.reloaderNoReloadCond =
     "!r.forceReload && !cfgDirsChanged && bytes.Equal(r.lastCfgHash, cfgHash) && bytes.Equal(r.lastWatchedDirsHash, watchedDirsHash)" := rfl
 
